@@ -2,7 +2,9 @@
   C05 — duality maps invert each other and define the regressive product.
 -/
 import Kingdon.Lemmas.Linear
+import Kingdon.Lemmas.Duality
 namespace Kingdon.C05
+open Finsupp
 variable {α : Type} [CommRing α]
 
 /-- undual(dual(x)) = x for Hodge duality, for every stored layout with keys inside the algebra -/
@@ -11,6 +13,41 @@ theorem unhodge_hodge_id (c : Cfg) (x : MV α) (hk : ∀ p ∈ x, p.1 ≤ c.pss)
 
 theorem hodge_unhodge_id (c : Cfg) (x : MV α) (hk : ∀ p ∈ x, p.1 ≤ c.pss) : hodge c (unhodge c x) = x :=
   hodge_unhodge c x hk
+
+/-- every basis blade E satisfies E ^ hodge(E) = pseudoscalar -/
+theorem blade_wedge_its_hodge_dual (c : Cfg) (h : c.admissible = true) (I : Nat) (hI : I < 2 ^ c.d) :
+    den (op c [(I, (1 : α))] (hodge c [(I, (1 : α))])) = single c.pss 1 :=
+  blade_wedge_hodge c (Cfg.adm_of_admissible c h) I hI
+
+/-- polarity raises ZeroDivisionError exactly when the metric is degenerate; unpolarity never raises -/
+theorem polarity_raises_iff_degenerate (c : Cfg) (h : c.admissible = true) (x : MV α) :
+    polarityGen c false x = none ↔ (0 : Int) ∈ c.signature :=
+  polarity_raises_iff c (Cfg.adm_of_admissible c h) x
+
+/-- polarity(x) = x * pss⁻¹ (pss⁻¹ = pss² • pss, pss² = ±1) -/
+theorem polarity_is_mul_inverse_pss (c : Cfg) (h : c.admissible = true) (x y : MV α)
+    (hx : polarityGen c false x = some y) :
+    den y = clMulS c.computeSign (den x) (single c.pss ((c.computeSign c.pss c.pss : Int) : α)) :=
+  polarity_den c (Cfg.adm_of_admissible c h) x y hx
+
+theorem unpolarity_polarity_id (c : Cfg) (h : c.admissible = true) (x y z : MV α) (hx : ∀ p ∈ x, p.1 < 2 ^ c.d)
+    (h1 : polarityGen c false x = some y) (h2 : polarityGen c true y = some z) : den z = den x :=
+  unpolarity_polarity c (Cfg.adm_of_admissible c h) x y z hx h1 h2
+
+theorem polarity_unpolarity_id (c : Cfg) (h : c.admissible = true) (x y z : MV α) (hx : ∀ p ∈ x, p.1 < 2 ^ c.d)
+    (h1 : polarityGen c true x = some y) (h2 : polarityGen c false y = some z) : den z = den x :=
+  polarity_unpolarity c (Cfg.adm_of_admissible c h) x y z hx h1 h2
+
+/-- a & b = unhodge(hodge(a) ^ hodge(b)) for all operands and storage patterns -/
+theorem regressive_is_dual_of_outer (c : Cfg) (h : c.admissible = true) (x y : MV α)
+    (hx : ∀ p ∈ x, p.1 < 2 ^ c.d) (hy : ∀ p ∈ y, p.1 < 2 ^ c.d) :
+    den (rp c x y) = den (unhodge c (op c (hodge c x) (hodge c y))) :=
+  rp_den c (Cfg.adm_of_admissible c h) x y hx hy
+
+/-- the pseudoscalar is the identity of the regressive product -/
+theorem pss_is_regressive_identity (c : Cfg) (h : c.admissible = true) (y : MV α) (hy : ∀ p ∈ y, p.1 < 2 ^ c.d) :
+    den (rp c [(c.pss, (1 : α))] y) = den y ∧ den (rp c y [(c.pss, (1 : α))]) = den y :=
+  ⟨rp_pss_left c (Cfg.adm_of_admissible c h) y hy, rp_pss_right c (Cfg.adm_of_admissible c h) y hy⟩
 
 /-- non-vacuity: a permuted sparse 3DPGA multivector has its keys inside the algebra -/
 example : ∀ p ∈ ([(9, (2 : Int)), (3, 5), (15, 1)] : MV Int), p.1 ≤ (Cfg.default [0, 1, 1, 1] 0).pss := by decide
